@@ -58,7 +58,7 @@ def gen_world(rng, fmt=None, apdep=None, n_models=(1, 8), n_ap=(1, 5), n_wav=(5,
     nf = rng.randint(*n_filters)
     w['filters'] = [{'name': 'F%d' % j, 'n': rng.randint(2, 14), 'seed': rng.randrange(1 << 30),
                      'desc': bool(filt_desc and rng.random() < 0.5),
-                     'zero_edges': rng.random() < 0.3} for j in range(nf)]
+                     'zero_edges': rng.random() < 0.3, 'on_grid': rng.random() < 0.08} for j in range(nf)]
     w['ext_slope'] = round(rng.uniform(1.0, 2.0), 3)
     # unit in which the package stores its fluxes (per-file: any supported family; cube: a flux density)
     # (any spelling astropy or sedfitter's legacy table understands: 'MJY' is the old spelling of mJy, 'MJy' is mega-jansky)
@@ -205,6 +205,11 @@ class World(object):
                 w = np.sort(gf.uniform(c * 0.7, c * 1.4, f['n']))
             fnu = nu_of(w)[::-1].copy()                      # increasing frequency
             fr = gf.uniform(0.05, 1, f['n'])
+            if f.get('on_grid') and len(self.wav) >= 3:
+                # a transmission curve evaluated directly on the frequency grid of the model SEDs (bit-identical values)
+                fnu = nu_of(self.wav)[::-1].copy()
+                fr = gf.uniform(0.05, 1, len(fnu)) * np.exp(-0.5 * (np.log(nu_of(c) / fnu) / 0.5) ** 2)
+                fr = np.maximum(fr, 1e-6)
             if f.get('zero_edges') and f['n'] >= 3:
                 fr[0] = 0.
                 fr[-1] = 0.
